@@ -252,19 +252,20 @@ def chk_ber_forms(T, v, M, limit=60):
     want = x690.norm(T, v)
     spec = bridge.to_type(T)
     try:
-        forms = list(x690.ber_forms(T, v, limit=limit))
+        forms = list(x690.ber_forms(T, v, limit=limit, with_deviations=True))
     except ValueError:
         return [], 0
-    for e in forms:
+    for e, devs in forms:
         n += 1
         try:
             r, rest = bd.decode(e, asn1Spec=spec)
             got = x690.norm(T, bridge.from_value(T, r))
         except Exception as ex:
-            out.append(fail('ber-forms', T, v, '%s: %s' % (type(ex).__name__, str(ex)[:200]), enc=e))
+            out.append(fail('ber-forms', T, v, '%s: %s' % (type(ex).__name__, str(ex)[:200]), enc=e, deviations=devs))
             continue
         if got != want or rest:
-            out.append(fail('ber-forms', T, v, 'decodes to another value', enc=e, got=repr(got), rest=rest))
+            out.append(fail('ber-forms', T, v, 'decodes to another value', enc=e, got=repr(got), rest=rest,
+                            deviations=devs))
     return out, n
 
 
@@ -333,9 +334,169 @@ def chk_truncation(T, v, M):
     return out, n
 
 
+def leaves_of(obj):
+    """scalar leaves of a pyasn1 value object in order (python natives)"""
+    from pyasn1.type import univ, base
+    out = []
+    if isinstance(obj, (univ.SequenceOf, univ.SetOf)):
+        for i in range(len(obj)):
+            out += leaves_of(obj[i])
+    elif isinstance(obj, (univ.Sequence, univ.Set)):
+        for i in range(len(obj)):
+            c = obj.getComponentByPosition(i, default=None, instantiate=False)
+            if c is not None and c is not base.noValue and c.isValue:
+                out += leaves_of(c)
+    elif isinstance(obj, univ.Choice):
+        out += leaves_of(obj.getComponent())
+    elif isinstance(obj, univ.BitString):
+        out.append(('bits', obj.asBinary() if len(obj) else ''))
+    elif isinstance(obj, univ.Real):
+        out.append(('real', 'inf' if obj.isPlusInf else '-inf' if obj.isMinusInf else
+                    x690.norm({'k': 'REAL'}, tuple(int(x) for x in tuple(obj)))))
+    elif isinstance(obj, univ.ObjectIdentifier):
+        out.append(('oid', tuple(obj)))
+    elif isinstance(obj, univ.Null):
+        out.append(('null',))
+    elif isinstance(obj, univ.Integer):
+        out.append(('int', int(obj)))
+    elif isinstance(obj, univ.OctetString):
+        out.append(('octets', bytes(obj.asOctets())))
+    else:
+        out.append(('?', repr(obj)))
+    return out
+
+
+def native_leaves(T, v):
+    """leaves of the abstract value (T, norm v) in encoding order (independent of pyasn1)"""
+    k = T['k']
+    if k in ('SEQUENCE', 'SET'):
+        out = []
+        for n, ft, mode in T['fields']:
+            if n in v:
+                out += native_leaves(ft, v[n])
+        return out
+    if k in ('SEQUENCEOF', 'SETOF'):
+        return [l for x in v for l in native_leaves(T['elem'], x)]
+    if k == 'CHOICE':
+        return native_leaves(x690.field_type(T, v[0]), v[1])
+    if k == 'BOOLEAN':
+        return [('int', int(v))]
+    if k in ('INTEGER', 'ENUMERATED'):
+        return [('int', v)]
+    if k == 'BITSTRING':
+        return [('bits', v)]
+    if k == 'NULL':
+        return [('null',)]
+    if k == 'OID':
+        return [('oid', tuple(v))]
+    if k == 'REAL':
+        return [('real', v)]
+    return [('octets', x690.str_octets(k, v))]
+
+
+def has_kind(T, kinds):
+    if T['k'] in kinds:
+        return True
+    return any(has_kind(f[1], kinds) for f in T.get('fields', ())) or ('elem' in T and has_kind(T['elem'], kinds))
+
+
+def chk_schemaless(T, v, M):
+    """C16: decoding a self-describing DER/BER/CER encoding without a guiding type yields a value object whose
+    DER re-encoding is byte-identical and whose leaves equal the original's."""
+    be, bd, ce, cd, de, dd, error, bridge = M
+    from pyasn1.type import base
+    if not U.self_describing([(T, v)]):
+        return [], 0
+    out, n = [], 0
+    val = bridge.to_value(T, v)
+    want_leaves = native_leaves(T, x690.norm(T, v))
+    unordered = has_kind(T, ('SET', 'SETOF'))      # canonical encoders reorder SET / SET OF members
+    if unordered:
+        want_leaves = sorted(want_leaves, key=repr)
+    try:
+        d = de.encode(val)
+    except Exception:
+        return [], 0
+    for ename, e, dec in (('DER', d, dd), ('DER->BER', d, bd), ('BER-indef', None, bd), ('CER', None, cd)):
+        if e is None:
+            try:
+                e = be.encode(val, defMode=False) if ename == 'BER-indef' else ce.encode(val)
+            except Exception:
+                continue
+        n += 1
+        try:
+            r, rest = dec.decode(e)
+        except Exception as ex:
+            out.append(fail('schemaless', T, v, '%s: %s' % (type(ex).__name__, str(ex)[:150]), enc=e, codec=ename))
+            continue
+        if r is None or not isinstance(r, base.Asn1Item) or not r.isValue:
+            out.append(fail('schemaless', T, v, 'result is None or a valueless placeholder: %r' % (r,), enc=e,
+                            codec=ename))
+            continue
+        try:
+            got_leaves = leaves_of(r)
+        except Exception as ex:
+            out.append(fail('schemaless', T, v, 'leaves unreadable: %s %s' % (type(ex).__name__, ex), enc=e,
+                            codec=ename))
+            continue
+        if unordered:
+            got_leaves = sorted(got_leaves, key=repr)
+        if got_leaves != want_leaves or rest:
+            out.append(fail('schemaless', T, v, 'leaves differ', enc=e, codec=ename, got=repr(got_leaves)[:300],
+                            want=repr(want_leaves)[:300]))
+            continue
+        if ename == 'DER':
+            try:
+                re_ = de.encode(r)
+            except Exception as ex:
+                out.append(fail('schemaless', T, v, 're-encoding raised %s: %s' % (type(ex).__name__, str(ex)[:150]),
+                                enc=e, codec=ename))
+                continue
+            if re_ != e:
+                out.append(fail('schemaless', T, v, 're-encoding differs', enc=e, got=re_, codec=ename))
+    return out, n
+
+
+def chk_noncanonical(T, v, M):
+    """C15: a single non-canonical rewrite of one element (indefinite length, segmented string, TRUE != FF) is
+    rejected by the DER decoder (indefinite, segmented) resp. by the CER and DER decoders (BOOLEAN), wherever
+    the element sits, with and without a guiding type."""
+    be, bd, ce, cd, de, dd, error, bridge = M
+    out, n = [], 0
+    spec = bridge.to_type(T)
+    try:
+        devs = x690.single_deviations(T, v)
+    except ValueError:
+        return [], 0
+    selfdesc = bool(U.self_describing([(T, v)]))
+    for label, alt, e in devs:
+        if label == 'length' and alt == 'indefinite':
+            decs = [('DER', dd)]
+        elif label == 'segmented':
+            decs = [('DER', dd)]
+        elif label == 'bool':
+            decs = [('DER', dd), ('CER', cd)]
+        else:
+            continue
+        for dname, dec in decs:
+            for withspec in ((True, False) if selfdesc else (True,)):
+                n += 1
+                try:
+                    dec.decode(e, asn1Spec=spec if withspec else None)
+                except error.PyAsn1Error:
+                    continue
+                except Exception as ex:
+                    out.append(fail('noncanonical', T, v, 'non-library error %s: %s' % (type(ex).__name__, ex), enc=e,
+                                    rewrite=label + ':' + str(alt), decoder=dname, withspec=withspec))
+                    continue
+                out.append(fail('noncanonical', T, v, 'non-canonical encoding accepted', enc=e,
+                                rewrite=label + ':' + str(alt), decoder=dname, withspec=withspec))
+    return out, n
+
+
 CHECKS = {
     'der-twin': chk_der_twin, 'cer-twin': chk_cer_twin, 'ber-read': chk_ber_read, 'rt-ber': chk_roundtrip_ber,
-    'rt-canon': chk_roundtrip_canon, 'ber-forms': chk_ber_forms, 'tails': chk_tails, 'truncation': chk_truncation,
+    'rt-canon': chk_roundtrip_canon, 'ber-forms': chk_ber_forms, 'tails': chk_tails, 'truncation': chk_truncation, 'schemaless': chk_schemaless, 'noncanonical': chk_noncanonical,
 }
 
 
